@@ -48,16 +48,17 @@ type consState struct {
 	s  *Sim
 	mu sync.Mutex
 
-	got      map[string][]*crec // consumer -> records in return order
-	pollSeq  map[string]uint64
-	selEv    map[string][]selEvent
-	fbuf     map[*kgo.Record]int
-	funbuf   map[*kgo.Record]int
-	stopCtl  chan struct{}
-	txnOf    map[string]*txnInfo // value -> transaction
-	txns     []*txnInfo
-	produced map[string]bool
-	prodErr  int
+	got        map[string][]*crec // consumer -> records in return order
+	pollSeq    map[string]uint64
+	selEv      map[string][]selEvent
+	fbuf       map[*kgo.Record]int
+	funbuf     map[*kgo.Record]int
+	stopCtl    chan struct{}
+	consumerCl *kgo.Client         // the first consumer, for environment events that wait on its view
+	txnOf      map[string]*txnInfo // value -> transaction
+	txns       []*txnInfo
+	produced   map[string]bool
+	prodErr    int
 }
 
 type txnInfo struct {
@@ -122,6 +123,9 @@ func (st *consState) consumerOpts(name string) []kgo.Opt {
 	}
 	if p.Knob("rack", 0) != 0 {
 		opts = append(opts, kgo.Rack("rack-a"))
+	}
+	if d := p.Knob("missing_deleted_ms", 0); d > 0 {
+		opts = append(opts, kgo.ConsiderMissingTopicDeletedAfter(time.Duration(d)*time.Millisecond))
 	}
 	switch p.Knob("sel_mode", 0) {
 	case 0: // topics
@@ -411,9 +415,10 @@ func adminDeleteTopic(s *Sim, name string) bool {
 }
 
 type topicState struct {
-	parts    int32
-	deleted  bool
-	internal bool
+	parts     int32
+	deleted   bool
+	internal  bool
+	recreated bool // deleted and created again under the same name
 }
 
 func scenConsume(s *Sim) {
@@ -453,10 +458,50 @@ func scenConsume(s *Sim) {
 			case "create_topic":
 				if adminCreateTopic(s, ev.S, int32(ev.A), ev.B != 0) {
 					tmu.Lock()
-					tstate[ev.S] = &topicState{parts: int32(ev.A), internal: ev.B != 0}
+					old := tstate[ev.S]
+					tstate[ev.S] = &topicState{parts: int32(ev.A), internal: ev.B != 0, recreated: old != nil}
 					tmu.Unlock()
+					if old != nil {
+						s.Probe("topic_recreated")
+					}
 					s.Count("env.create_topic", 1)
 					s.Logf("ENV create topic %s (%d partitions)", ev.S, ev.A)
+				}
+			case "recreate_after_purge":
+				// The topic was deleted a moment ago. A client that still
+				// holds cursors of the deleted incarnation when it sees the
+				// new one stalls on UNKNOWN_TOPIC_ID by design (source.go,
+				// cursor.topicID); the clause is about a topic created
+				// after the client let go of the old one, so the harness
+				// waits for that before it creates it again.
+				var cl *kgo.Client
+				gone := s.WaitFor(90*time.Second, 200*time.Millisecond, func() bool {
+					if cl == nil {
+						st.mu.Lock()
+						cl = st.consumerCl
+						st.mu.Unlock()
+						if cl == nil {
+							return false
+						}
+					}
+					for _, t := range cl.GetConsumeTopics() {
+						if t == ev.S {
+							return false
+						}
+					}
+					return true
+				})
+				if !gone {
+					s.Logf("ENV topic %s not recreated: the consumer still lists it", ev.S)
+					return
+				}
+				time.Sleep(time.Duration(ev.B) * time.Millisecond)
+				if adminCreateTopic(s, ev.S, int32(ev.A), false) {
+					tmu.Lock()
+					tstate[ev.S] = &topicState{parts: int32(ev.A), recreated: true}
+					tmu.Unlock()
+					s.Probe("topic_recreated")
+					s.Logf("ENV create topic %s again (%d partitions)", ev.S, ev.A)
 				}
 			case "add_partitions":
 				if adminAddPartitions(s, ev.S, int32(ev.A)) {
@@ -503,6 +548,11 @@ func scenConsume(s *Sim) {
 			case 'c':
 				cl = s.Client(a.Client, st.consumerOpts(a.Client)...)
 				consumers = append(consumers, a.Client)
+				st.mu.Lock()
+				if st.consumerCl == nil {
+					st.consumerCl = cl
+				}
+				st.mu.Unlock()
 			case 'x':
 				cl = s.Client(a.Client, kgo.RecordPartitioner(kgo.ManualPartitioner()), kgo.TransactionalID("txn-"+a.Client),
 					kgo.TransactionTimeout(time.Duration(p.Knob("txn_timeout_ms", 60000))*time.Millisecond), kgo.UnknownTopicRetries(20),
@@ -611,6 +661,17 @@ func scenConsume(s *Sim) {
 	if !complete {
 		if m := orc.missing(consumers, true); m != "" {
 			s.Violf(orc.livenessClass(), "after heal and %v on a healthy cluster the consumer has not returned: %s", bound, m)
+		}
+	}
+	if p.Prop == "C39" {
+		// partitions whose position the application (or a topic deletion)
+		// reset are exempt from the clause above; what they still owe is
+		// that, being selected now, they are consumed from now on
+		orc.tail(consumers, bound)
+		if !readAll() {
+			s.OutOfScope("could not read the final logs")
+			close(stopPoll)
+			return
 		}
 	}
 	close(stopPoll)
@@ -743,7 +804,7 @@ func (o *consOracle) missing(consumers []string, describe bool) string {
 			have[k][r.off] = true
 		}
 		for k, l := range o.logs {
-			if !o.selectedAt(c, k.t, k.p, endSeq) || o.everRemoved(c, k) {
+			if !o.selectedAt(c, k.t, k.p, endSeq) || o.everRemoved(c, k) || o.recreated(k.t) {
 				continue
 			}
 			for _, off := range o.expected(l) {
@@ -757,6 +818,111 @@ func (o *consOracle) missing(consumers []string, describe bool) string {
 		}
 	}
 	return ""
+}
+
+func (o *consOracle) recreated(t string) bool {
+	ts := o.tstate[t]
+	return ts != nil && ts.recreated
+}
+
+// selectedNow: does the consumer select the partition at the end of the
+// run. For a regex consumer a purge is not a lasting deselection: "if you are
+// consuming via regex and the topic still exists on the broker, this function
+// will at most only temporarily remove the topic from the client and the
+// topic will be re-discovered".
+func (o *consOracle) selectedNow(c string, k tpKey) bool {
+	if o.s.P.Knob("sel_mode", 0) != 1 {
+		return o.selectedAt(c, k.t, k.p, ^uint64(0))
+	}
+	ts := o.tstate[k.t]
+	return ts != nil && !ts.deleted && !ts.internal && reSel.MatchString(k.t) && !reExcl.MatchString(k.t)
+}
+
+// tail: every partition that is selected now but was removed, purged or
+// recreated earlier gets fresh records, again and again, until the consumer
+// has returned one of them: whatever position the re-selection started from,
+// a consumer that consumes the partition at all returns a later record.
+func (o *consOracle) tail(consumers []string, bound time.Duration) {
+	s := o.s
+	type target struct {
+		c string
+		k tpKey
+	}
+	var pending []target
+	o.st.mu.Lock()
+	var keys []tpKey
+	for k := range o.logs {
+		keys = append(keys, k)
+	}
+	sort.Slice(keys, func(i, j int) bool { return keys[i].t < keys[j].t || (keys[i].t == keys[j].t && keys[i].p < keys[j].p) })
+	for _, c := range consumers {
+		for _, k := range keys {
+			if o.selectedNow(c, k) && (o.everRemoved(c, k) || o.recreated(k.t)) {
+				pending = append(pending, target{c, k})
+			}
+		}
+	}
+	o.st.mu.Unlock()
+	if len(pending) == 0 {
+		return
+	}
+	s.Probe("c39_tail_targets")
+	w := s.Client("tail", kgo.RecordPartitioner(kgo.ManualPartitioner()), kgo.UnknownTopicRetries(20))
+	defer w.Close()
+	vals := map[target]map[string]bool{}
+	deadline := s.Now() + bound
+	n := 0
+	for len(pending) > 0 && s.Now() < deadline {
+		sent := map[tpKey]string{}
+		for _, tg := range pending {
+			if _, ok := sent[tg.k]; ok {
+				continue
+			}
+			n++
+			v := fmt.Sprintf("tail-%d", n)
+			ctx, cancel := context.WithTimeout(context.Background(), 10*time.Second)
+			err := w.ProduceSync(ctx, &kgo.Record{Topic: tg.k.t, Partition: tg.k.p, Value: []byte(v)}).FirstErr()
+			cancel()
+			if err != nil {
+				s.Logf("TAIL produce to %s/%d: %v", tg.k.t, tg.k.p, err)
+				v = ""
+			}
+			sent[tg.k] = v
+		}
+		for _, tg := range pending {
+			if v := sent[tg.k]; v != "" {
+				if vals[tg] == nil {
+					vals[tg] = map[string]bool{}
+				}
+				vals[tg][v] = true
+			}
+		}
+		time.Sleep(2 * time.Second)
+		o.st.mu.Lock()
+		var still []target
+		for _, tg := range pending {
+			done := false
+			for _, r := range o.st.got[tg.c] {
+				if r.topic == tg.k.t && r.part == tg.k.p && vals[tg][r.val] {
+					done = true
+					break
+				}
+			}
+			if !done {
+				still = append(still, tg)
+			}
+		}
+		o.st.mu.Unlock()
+		pending = still
+	}
+	for _, tg := range pending {
+		if len(vals[tg]) == 0 {
+			continue // nothing could be produced to it
+		}
+		s.Violf("C39/liveness/reselected-not-consumed", "%s selects %s/%d (removed, purged or recreated earlier, selected again now) but returned none of the %d records produced to it over %v on a healthy cluster", tg.c, tg.k.t, tg.k.p, len(vals[tg]), bound)
+		return
+	}
+	s.Probe("c39_tail_consumed")
 }
 
 // everRemoved: partitions that were removed/purged and possibly re-added are
@@ -801,8 +967,8 @@ func (o *consOracle) judge(consumers []string) {
 					}
 				}
 			}
-			if l == nil {
-				continue // topic deleted or unknown at the end: nothing to compare with
+			if l == nil || o.recreated(r.topic) {
+				continue // topic deleted or unknown at the end, or the log of another incarnation: nothing to compare with
 			}
 			// --- C04: order and uniqueness
 			removed := o.everRemoved(c, k)
@@ -849,7 +1015,7 @@ func (o *consOracle) judge(consumers []string) {
 		// --- C04 gaps: between the first and the last returned offset of a
 		// partition every expected offset must have been returned.
 		for k, l := range o.logs {
-			if o.everRemoved(c, k) || len(seen[k]) == 0 {
+			if o.everRemoved(c, k) || o.recreated(k.t) || len(seen[k]) == 0 {
 				continue
 			}
 			exp := o.expected(l)
